@@ -174,14 +174,18 @@ func (w *nworld) serviceP(signers []common.Address, payer common.Address, code [
 	}
 	overlay := w.overlay
 	overlay.Reset()
-	cache := storage.NewCacheDB(overlay)
 	w.nonce++
 	tx := rawInvokeTxPayer(code, w.nonce, signers, payer)
-	svc, err := native.NewNativeService(cache, tx, w.time, w.height, common.Uint256{}, tx.ChainID, code, false)
+	svc := w.serviceOf(tx, code)
+	return svc, overlay, svc.GetCacheDB()
+}
+
+func (w *nworld) serviceOf(tx *types.Transaction, code []byte) *native.NativeService {
+	svc, err := native.NewNativeService(storage.NewCacheDB(w.overlay), tx, w.time, w.height, common.Uint256{}, tx.ChainID, code, false)
 	if err != nil {
 		panic(err)
 	}
-	return svc, overlay, cache
+	return svc
 }
 
 // invoke runs one transaction through the real NativeService.Invoke; on success with commit the writes are persisted.
@@ -192,6 +196,20 @@ func (w *nworld) invoke(signers, via []common.Address, contract common.Address, 
 // invokeCodeTx runs a transaction with the given invoke code, signers and payer.
 func (w *nworld) invokeCodeTx(signers []common.Address, payer common.Address, code []byte, commit bool) (out callOut) {
 	svc, overlay, cache := w.serviceP(signers, payer, code)
+	return w.run(svc, overlay, cache, commit)
+}
+
+// invokeTxObj runs a prepared transaction object (its SignedAddr is whatever the caller or the real validator put there).
+func (w *nworld) invokeTxObj(tx *types.Transaction, code []byte, commit bool) callOut {
+	if w.overlay == nil {
+		w.overlay = overlaydb.NewOverlayDB(w.store)
+	}
+	w.overlay.Reset()
+	svc := w.serviceOf(tx, code)
+	return w.run(svc, w.overlay, svc.GetCacheDB(), commit)
+}
+
+func (w *nworld) run(svc *native.NativeService, overlay *overlaydb.OverlayDB, cache *storage.CacheDB, commit bool) (out callOut) {
 	var err error
 	func() {
 		defer func() {
